@@ -211,21 +211,22 @@ type inst struct {
 }
 
 type world struct {
-	s      *TreeScript
-	prop   string
-	tries  []*inst
-	disk   *grocksdb.Disk
-	pndb   *util.PNodeDB
-	path   string
-	fdb    *faultyDB
-	bc     *statecache.BlockCache
-	stats  sim.Stats
-	log    *sim.Log
-	v      *sim.Violation
-	step   int
-	states map[string]bool
-	roots  map[string]string // C02 injectivity: root -> content digest
-	mark   int
+	s                             *TreeScript
+	prop                          string
+	tries                         []*inst
+	disk                          *grocksdb.Disk
+	pndb                          *util.PNodeDB
+	path                          string
+	fdb                           *faultyDB
+	bc                            *statecache.BlockCache
+	stats                         sim.Stats
+	log                           *sim.Log
+	v                             *sim.Violation
+	step                          int
+	states                        map[string]bool
+	roots                         map[string]string // C02 injectivity: root -> content digest
+	mark                          int
+	savedFailRead, savedFailWrite map[int]bool
 }
 
 var worldSeq int
@@ -326,10 +327,11 @@ func (w *world) close() {
 // faultyDB wraps a NodeDB and fails chosen operations.
 type faultyDB struct {
 	util.NodeDB
-	w     *world
-	n     map[string]int
-	fired int
-	fail  map[string]map[int]bool
+	w        *world
+	n        map[string]int
+	disarmed bool
+	fired    int
+	fail     map[string]map[int]bool
 }
 
 var errInjected = fmt.Errorf("injected node-db error")
@@ -339,7 +341,7 @@ func (f *faultyDB) hit(kind string) bool {
 		f.n = map[string]int{}
 	}
 	f.n[kind]++
-	if f.fail[kind][f.n[kind]] {
+	if f.fail[kind][f.n[kind]] && !f.disarmed {
 		f.w.stats.Inc("fault." + kind)
 		f.fired++
 		return true
@@ -377,7 +379,29 @@ func (w *world) faultTotal() int {
 	}
 	return n
 }
-func (w *world) faultMark()     { w.mark = w.faultTotal() }
+func (w *world) faultMark() { w.mark = w.faultTotal() }
+
+// armFaults switches the I/O fault plan off and on.  Faults fire only inside
+// operations whose sequence of store calls is a function of the script
+// (insert/delete/lookup/iterate); a merge replays the child's change set in the
+// iteration order of a Go map, so the n-th store call inside it is not
+// determined by the seed and a fault there could not be replayed.
+func (w *world) armFaults(on bool) {
+	if w.fdb != nil {
+		w.fdb.disarmed = !on
+	}
+	if w.disk != nil {
+		if on {
+			if w.savedFailRead != nil || w.savedFailWrite != nil {
+				w.disk.FailRead, w.disk.FailWrite = w.savedFailRead, w.savedFailWrite
+				w.savedFailRead, w.savedFailWrite = nil, nil
+			}
+		} else if w.savedFailRead == nil && w.savedFailWrite == nil {
+			w.savedFailRead, w.savedFailWrite = w.disk.FailRead, w.disk.FailWrite
+			w.disk.FailRead, w.disk.FailWrite = nil, nil
+		}
+	}
+}
 func (w *world) faultHit() bool { return w.faultTotal() > w.mark }
 
 func (w *world) get(i int) *inst {
